@@ -14,6 +14,7 @@ import FlowRecord.Drive.C20
 import FlowRecord.Drive.C18
 import FlowRecord.Drive.C19
 import FlowRecord.Drive.C17
+import FlowRecord.Drive.FieldPack
 /-!
 Line protocol of the model driver: one JSON object per input line (`{"op": ..., ...}`), one JSON object per
 output line. Handlers live in `FlowRecord/Drive/*.lean`; register each one in `handlers` below.
@@ -38,7 +39,8 @@ def handlers : List Handler := [
   handleC10,
   handleC16,
   handleC20,
-  handleC19
+  handleC19,
+  handleFieldPack
 ]
 
 def handle (j : Json) : Json :=
